@@ -46,7 +46,7 @@ Proof.
     assert (Nil : forall r0, ([Consume], r0, @nil frame) = (evs, r, rest) ->
                   outs evs = [] /\ filter is_cb evs = [] /\ (length rest <= length (f :: fr))%nat).
     { intros r0 E. injection E as <- <- <-. repeat split; try reflexivity. cbn [length]. lia. }
-    destruct f as [t body|t size [tr|]|t size]; try (eapply One; exact H); try (eapply Nil; exact H).
+    destruct f as [t body|t size [tr|]|t size|]; try (eapply One; exact H); try (eapply Nil; exact H).
     destruct (Byte.eqb t x48 || Byte.eqb t x53).
     + destruct (copy_read L fr tl) as [[evs' r'] rest'] eqn:E.
       injection H as <- <- <-. destruct (IH _ _ _ eq_refl) as (A & B & C).
